@@ -175,3 +175,230 @@ Example valid_streams_are_accepted :
   /\ patcher (S (length s)) true 65536 (2^44) [70000; 10] [70005; 10; 127] None (firstn 9 s) = Err.
 Proof. exact patcher_accepts_valid. Qed.
 Print Assumptions valid_streams_are_accepted.
+
+(** ** Added (Compose/ModelsAgree.v): the C10 model and the C01 / C12 models of pwr/patcher agree
+
+    The patcher (Resume loop, processRsync, isFullFileOp, wsync.ApplySingleFull, skipFile,
+    processBsdiff, bsdiff Apply) is modelled here (Patch/Malformed.v: frames = field numbers,
+    varint VALUES and payload LENGTHS; int64 arithmetic; outcome classes only) and by
+    Patch/Patcher.v (C01: frames carry bytes, unbounded integers, output = a tree); bsdiff Apply
+    also by Bsdiff/Patch.v (C12).  The block arithmetic (ComputeNumBlocks, ComputeBlockSize)
+    exists in six resp. three transcriptions across the development.  Stated here (C10's file)
+    for the pairs C01/C10, C12/C10 and for the block arithmetic; the pairs with C03 are in
+    Properties/C03.v.
+
+    Vocabulary (Compose/ModelsAgreeMalformed.v): [stream_of ms] = the C01 frames [ms] as C10 sees
+    them (payloads replaced by their lengths); [sizes_of c] = the file sizes of a container;
+    [aligned oldC olds] = the pool serves files of the declared sizes (C10's standing assumption);
+    [step_agrees] / [res_agrees] = same outcome class (ok | error | panic) and, on ok, the same
+    position in the patch; [wfile w] = the C01 entry writer is open on a regular file (C10 has no
+    output directory that could fail); [seek_fits bs maxoff o] = the offset
+    [blockSize * BlockIndex] of a block-range op fits int64 and the file system's seek limit -
+    the ONE thing C01 does not model ("Not modelled: int64 overflow of offsets") and the only
+    hypothesis about the patch: [relay_models_differ_on_wrapping_seek] shows it cannot be dropped.
+    The bsdiff loops need no such hypothesis. *)
+From Wharf Require Bowl.Fresh Patch.Reinterp Patch.Stream Patch.Patcher Patch.PatcherProofs Patch.Resume Sig.SigFile
+     Wsync.Spec Wsync.Account Wsync.Apply Val.VPool Bsdiff.Scan Bsdiff.Patch Compose.OptimizeApply
+     Compose.ModelsAgreeResume Compose.ModelsAgreeMalformed Compose.ModelsAgreeMalformedProofs
+     Compose.ModelsAgreeBlocksProofs Compose.ModelsAgreeBsdiffProofs.
+
+Section ModelsAgreeC10.
+  Import Fresh Reinterp Stream Patcher ModelsAgreeResume ModelsAgreeMalformed.
+  Local Open Scope Z_scope.
+
+  (** the two proto3 decoding tables (Patch/Reinterp.v - validated against golang/protobuf by
+      C17 - and the one of this property): same message, payloads seen as lengths, for every
+      field list whose varints are uint64 - in particular for every frame C01 can write *)
+  Theorem decoders_agree :
+    forall fs : list wfield,
+      Forall (fun f => match snd f with WVarint u => 0 <= u < 2^64 | WBytes _ => True end) fs ->
+      M.dec_sh (map fld fs) = len_sh (Reinterp.dec_sh fs) /\ M.dec_op (map fld fs) = len_so (dec_so fs) /\
+      M.dec_bh (map fld fs) = bh_target (Reinterp.dec_bh fs) /\ M.dec_ctl (map fld fs) = len_ct (dec_ct fs).
+  Proof. exact ModelsAgreeMalformedProofs.decoders_agree_lemma. Qed.
+
+  (** one iteration of the relay loop behind the end-marker test (validateOp, makeWop,
+      wsync.ApplySingleFull): same class; on ok the writer is still open and - when the opSize
+      arithmetic does not wrap either ([size_fits]) - C10's byte count is what C01 wrote *)
+  Theorem rsync_op_models_agree_c01_c10 :
+    forall (bs maxoff : Z) (oldC : container) (olds : list (list byte)),
+      0 < bs -> aligned oldC olds ->
+    forall (w : wst) (o : sync_op),
+      wfile w -> seek_fits bs maxoff o ->
+      match (if negb (validate_op oldC o) then Err else Patcher.apply_op bs oldC olds w o),
+            M.apply_op true bs maxoff (sizes_of oldC) (len_so o) with
+      | Ok w', M.Cont n =>
+          wfile w' /\ w_path w' = w_path w /\ (size_fits bs o -> n = Z.of_nat (w_off w') - Z.of_nat (w_off w))
+      | Err, M.Stop M.Err => True
+      | _, _ => False
+      end.
+  Proof. exact ModelsAgreeMalformedProofs.op_agrees. Qed.
+
+  (** the relay loop of processRsync ([relay_fits]: [seek_fits] for the ops up to the end marker) *)
+  Theorem relay_models_agree_c01_c10 :
+    forall (bs maxoff : Z) (oldC : container) (olds : list (list byte)),
+      0 < bs -> aligned oldC olds ->
+    forall (ms : list pmsg) (w : wst) (fuel : nat) (wc : Z),
+      wfile w -> relay_fits bs maxoff ms -> (length ms < fuel)%nat ->
+      step_agrees (Patcher.relay bs oldC olds ms w) (M.relay fuel true bs maxoff (sizes_of oldC) wc (stream_of ms)).
+  Proof. exact ModelsAgreeMalformedProofs.relay_agrees. Qed.
+
+  (** processRsync, both branches; [file_ready]: the output file exists below directories (what
+      Prepare leaves and processing keeps), so that GetWriter / Transpose cannot fail *)
+  Theorem process_rsync_models_agree_c01_c10 :
+    forall (bs maxoff : Z) (oldC newC : container) (olds : list (list byte)),
+      0 < bs -> aligned oldC olds ->
+    forall (idx : Z) (p : path) (outSize : Z) (ms : list pmsg) (s : pst) (fuel : nat),
+      znth (c_files newC) idx = Some (p, outSize) -> PatcherProofs.file_ready (p_tree s) p ->
+      rsync_fits bs maxoff ms -> (length ms < fuel)%nat ->
+      step_agrees (Patcher.process_rsync bs oldC newC olds idx ms s)
+                  (M.process_rsync fuel true bs maxoff (sizes_of oldC) outSize (stream_of ms)).
+  Proof. exact ModelsAgreeMalformedProofs.process_rsync_agrees. Qed.
+
+  (** the control loop of processBsdiff = bsdiff Apply per control, on ANY control list: same
+      class, same unread frames, same byte count.  The cursors may differ - C01's un-wrapped
+      beyond the end of the old file, C10's wrapped negative ([off_rel]) - exactly when the next
+      Seek fails in both.  Hypothesis: the old file has fewer than 2^63 bytes *)
+  Theorem bsdiff_loop_models_agree_c01_c10 :
+    forall (old : list byte) (ms : list pmsg) (offP offM : Z) (w : wst) (fuel : nat),
+      Z.of_nat (length old) < 2^63 -> wfile w ->
+      ModelsAgreeMalformedProofs.off_rel (Z.of_nat (length old)) offP offM -> (length ms < fuel)%nat ->
+      match ctrl_loop old offP ms w, M.controls fuel (Z.of_nat (length old)) offM (Z.of_nat (w_off w)) (stream_of ms) with
+      | Ok (rest, w'), M.Cont (wc, s) =>
+          s = stream_of rest /\ wc = Z.of_nat (w_off w') /\ wfile w' /\ w_path w' = w_path w /\
+          p_trace (w_st w') = p_trace (w_st w)
+      | Err, M.Stop M.Err => True
+      | _, _ => False
+      end.
+  Proof. exact ModelsAgreeMalformedProofs.ctrl_loop_agrees. Qed.
+
+  (** processBsdiff: header index check, control loop, sentinel, final size check; NO hypothesis
+      about the patch *)
+  Theorem process_bsdiff_models_agree_c01_c10 :
+    forall (oldC newC : container) (olds : list (list byte)),
+      aligned oldC olds -> Forall (fun d : list byte => Z.of_nat (length d) < 2^63) olds ->
+    forall (idx : Z) (p : path) (outSize : Z) (ms : list pmsg) (s : pst) (fuel : nat),
+      znth (c_files newC) idx = Some (p, outSize) -> PatcherProofs.file_ready (p_tree s) p ->
+      (length ms < fuel)%nat ->
+      step_agrees (Patcher.process_bsdiff oldC newC olds idx ms s)
+                  (M.process_bsdiff fuel true (sizes_of oldC) outSize (stream_of ms)).
+  Proof. exact ModelsAgreeMalformedProofs.process_bsdiff_agrees. Qed.
+
+  (** the whole of patcher.Resume(nil) on a fresh bowl, EVERY message list, any whitelist:
+      C01's [apply_fresh] and this property's [patcher] end in the same class.  Hypotheses:
+      [0 < bs]; the pool serves the declared sizes, below 2^63; the new container is one a walk
+      produces ([wf_container]: Prepare and the entry writers cannot fail - C10 has no output
+      directory); the block-range seeks the run performs fit ([run_fits]: [seek_fits] for the
+      first op and the relayed ops of every rsync series that is processed) *)
+  Theorem patcher_models_agree_c01_c10 :
+    forall (bs maxoff : Z) (oldC newC : container) (olds : list (list byte)) (wl : option (list Z)) (ms : list pmsg),
+      0 < bs -> aligned oldC olds -> Forall (fun d : list byte => Z.of_nat (length d) < 2^63) olds ->
+      wf_container newC ->
+      run_fits bs maxoff wl (length (c_files newC)) ms ->
+      res_agrees (apply_fresh bs oldC newC olds wl ms)
+                 (M.patcher (S (length ms)) true bs maxoff (sizes_of oldC) (sizes_of newC) wl (stream_of ms)).
+  Proof. exact ModelsAgreeMalformedProofs.patcher_models_agree_lemma. Qed.
+
+  (** the difference: block size 2^62, an op on block 2 of a 4-byte file.  Go's offset 2^63
+      wraps to -2^63 and Seek fails (this model: Err); C01 seeks beyond the end of the file,
+      copies nothing and goes on to the end marker (Ok).  C10 is the faithful one; C01 states
+      the limitation in its header *)
+  Theorem relay_models_differ_on_wrapping_seek :
+    let bs := 4611686018427387904 in
+    let maxoff := 9223372036854775807 in
+    let oldC := mkC [([1%N], 4)] [] [] in
+    let olds := [[1; 2; 3; 4]%N] in
+    let w := mkW (mkP [([1%N], File [0; 0]%N)] []) [1%N] 0 in
+    let op := MSO (mkSO T_BLOCK_RANGE 0 2 1 []) in
+    let ms := [op; hey_msg] in
+    aligned oldC olds /\ wfile w /\
+    (exists s', Patcher.relay bs oldC olds ms w = Ok ([], s')) /\
+    M.relay 3 true bs maxoff (sizes_of oldC) 0 (stream_of ms) = M.Stop M.Err /\
+    ~ seek_fits bs maxoff (as_so op).
+  Proof. exact ModelsAgreeMalformedProofs.relay_differs_on_wrapping_seek_lemma. Qed.
+
+  (** C12's [apply_series] and this property's control loop: a well-formed series (int64 seeks,
+      only the last control marked eof, Apply succeeds with output [out]) is accepted, the loop
+      stops behind the eof control, and the byte counter that is compared with the declared size
+      is the length of C12's output *)
+  Theorem bsdiff_series_models_agree_c12_c10 :
+    forall (old : list byte) (b : OptimizeApply.bseries) (out : list byte) (offf : Z) (rest : list pmsg) (fuel : nat),
+      Z.of_nat (length old) < 2^63 ->
+      forallb OptimizeApply.seek_okb b = true -> OptimizeApply.eof_lastb b = true ->
+      Bsdiff.Patch.apply_series old 0 b = Some (out, offf) ->
+      (length (map OptimizeApply.ctrl_msg b ++ rest) < fuel)%nat ->
+      M.controls fuel (Z.of_nat (length old)) 0 0 (stream_of (map OptimizeApply.ctrl_msg b ++ rest)) =
+      M.Cont (Z.of_nat (length out), stream_of rest).
+  Proof. exact ModelsAgreeBsdiffProofs.bsdiff_series_c12_c10_lemma. Qed.
+
+  (** pwr.ComputeNumBlocks, six transcriptions (C01 [Stream.num_blocks], this property's
+      [num_blocks], C03, C04, C11, C18) and the reference: the number of blocks [blocks] cuts the
+      content into.  Hypothesis [0 < bs] *)
+  Theorem num_blocks_models_agree :
+    forall (bs : N) (content : list N),
+      (0 < bs)%N ->
+      let size := N.of_nat (length content) in
+      let n := N.of_nat (length (blocks (N.to_nat bs) content)) in
+      SigFile.num_blocks bs size = n /\
+      Spec.num_blocks bs content = n /\
+      Resume.num_blocks bs size = n /\
+      Stream.num_blocks (Z.of_N bs) (Z.of_N size) = Z.of_N n /\
+      M.num_blocks (Z.of_N bs) (Z.of_N size) = Z.of_N n /\
+      VPool.compute_num_blocks (Z.of_N bs) (Z.of_N size) = Z.of_N n.
+  Proof. exact ModelsAgreeBlocksProofs.num_blocks_models_agree_lemma. Qed.
+
+  (** ... and on any size >= 0.  For a NEGATIVE size (only this property feeds sizes from an
+      arbitrary stream) Go truncates towards zero - so do this model and C01's - while
+      Val/VPool.v's [/] rounds down: (-2 + 2 - 1) / 2 is 0 in Go, -1 there *)
+  Theorem num_blocks_models_agree_sizes :
+    forall (bs size : Z), 0 < bs -> 0 <= size ->
+      Stream.num_blocks bs size = M.num_blocks bs size /\
+      Stream.num_blocks bs size = VPool.compute_num_blocks bs size /\
+      Stream.num_blocks bs size = Z.of_N (SigFile.num_blocks (Z.to_N bs) (Z.to_N size)) /\
+      Stream.num_blocks bs size = Z.of_N (Resume.num_blocks (Z.to_N bs) (Z.to_N size)).
+  Proof. exact ModelsAgreeBlocksProofs.num_blocks_models_agree_sizes_lemma. Qed.
+
+  Theorem num_blocks_models_differ_on_negative_size :
+    Stream.num_blocks 2 (-2) = 0 /\ M.num_blocks 2 (-2) = 0 /\ VPool.compute_num_blocks 2 (-2) = -1.
+  Proof. exact ModelsAgreeBlocksProofs.num_blocks_negative_size_differs_lemma. Qed.
+
+  (** pwr.ComputeBlockSize (Val/VPool.v with [mod], Wsync/Account.v with [Z.rem]) and the
+      [lastSize] / [opSize] arithmetic of ApplySingleFull (Patch/Patcher.v, Wsync/Apply.v; this
+      property's [apply_block_range] is compared in [rsync_op_models_agree_c01_c10]) *)
+  Theorem block_size_models_agree :
+    forall (bs fileSize blockIndex blockSpan : Z), 0 < bs -> 0 <= fileSize ->
+      VPool.compute_block_size bs fileSize blockIndex = Account.compute_block_size bs fileSize blockIndex /\
+      Patcher.op_size bs fileSize blockIndex blockSpan =
+        (blockSpan - 1) * bs + VPool.compute_block_size bs fileSize (blockIndex + (blockSpan - 1)) /\
+      Apply.op_size (Z.to_N bs) fileSize blockIndex blockSpan = Patcher.op_size bs fileSize blockIndex blockSpan.
+  Proof. exact ModelsAgreeBlocksProofs.block_size_models_agree_lemma. Qed.
+End ModelsAgreeC10.
+Print Assumptions decoders_agree.
+Print Assumptions rsync_op_models_agree_c01_c10.
+Print Assumptions relay_models_agree_c01_c10.
+Print Assumptions process_rsync_models_agree_c01_c10.
+Print Assumptions bsdiff_loop_models_agree_c01_c10.
+Print Assumptions process_bsdiff_models_agree_c01_c10.
+Print Assumptions patcher_models_agree_c01_c10.
+Print Assumptions relay_models_differ_on_wrapping_seek.
+Print Assumptions bsdiff_series_models_agree_c12_c10.
+Print Assumptions num_blocks_models_agree.
+Print Assumptions num_blocks_models_agree_sizes.
+Print Assumptions num_blocks_models_differ_on_negative_size.
+Print Assumptions block_size_models_agree.
+
+(** the hypotheses of [patcher_models_agree_c01_c10] are satisfiable: block size 4, one old file,
+    an rsync series (DATA, RANGE, DATA, RANGE) and a bsdiff series with a backward seek; both
+    models accept the patch, C01 produces the two new files *)
+Example patcher_models_agree_example :
+  let oldC := ModelsAgreeMalformedProofs.ex_oldC in
+  let newC := ModelsAgreeMalformedProofs.ex_newC in
+  let olds := ModelsAgreeMalformedProofs.ex_olds in
+  let ms := ModelsAgreeMalformedProofs.ex_ms in
+  ModelsAgreeResume.aligned oldC olds /\ Forall (fun d : list byte => Z.of_nat (length d) < 2^63) olds /\
+  Fresh.wf_container newC /\ ModelsAgreeMalformed.run_fits 4 (2^40) None (length (Fresh.c_files newC)) ms /\
+  (exists t tr, Patcher.apply_fresh 4 oldC newC olds None ms = Fresh.Ok (t, 2, tr) /\
+                Fresh.tlookup t [2%N] = Some (Fresh.File [9; 9; 1; 2; 3; 4; 7; 5; 6]%N) /\
+                Fresh.tlookup t [3%N] = Some (Fresh.File [2; 3; 4; 8; 1; 2]%N)) /\
+  patcher (S (length ms)) true 4 (2^40) (ModelsAgreeMalformed.sizes_of oldC) (ModelsAgreeMalformed.sizes_of newC) None
+          (ModelsAgreeMalformed.stream_of ms) = Ok.
+Proof. exact ModelsAgreeMalformedProofs.patcher_models_agree_example_lemma. Qed.
